@@ -96,7 +96,8 @@ def _downgrade_opaque(prog: Program, res: Result) -> None:
                     if m is not None:
                         cands.append(m)
             for c in cands:
-                reasons += prog.opaque_context(c)
+                reasons += prog.opaque_context(
+                    c, int(line) if c is fi and line.isdigit() else None)
         for q in f.context:
             if q in prog.functions:
                 reasons += prog.opaque_context(prog.functions[q])
